@@ -14,6 +14,7 @@
   `_build_naive` (ValueError → ParserError, OverflowError propagates), `_build_tzaware`.
 -/
 import DateutilVerif.Proofs.ParserTotal
+import DateutilVerif.Proofs.LexerBound
 
 namespace C14
 open PM Py
@@ -89,6 +90,12 @@ theorem lex_terminates (cls : Char → CClass) :
     ∀ (c : Char) (cs : List Char),
       scan cls LexSt.init (c :: cs) = (step cls LexSt.init c).1 ++ scan cls (step cls LexSt.init c).2 cs :=
   ⟨rfl, fun _ _ => rfl⟩
+
+/-- prompt termination, quantitatively: the tokens contain at most `len(s)` characters in total (every input
+    character lands in at most one token, nothing is duplicated), so the token list — over which the scan
+    makes one visit per index — is never longer than the input -/
+theorem lex_output_bounded (cls : Char → CClass) (s : List Char) :
+    ((lex cls s).map List.length).sum ≤ s.length := lex_total_length cls s
 
 /-- termination of the scan over tokens: after `len_l` indices the loop has returned
     (`fuel = 0` is reached by structural recursion whatever the steps did) -/
